@@ -42,6 +42,7 @@ typedef struct {
     int              sign_ext;                  /* whether to sign extend or not */
     uint8            buffer[NBIT_BUF_SIZE];     /* buffer for expanding n-bit data in */
     int              buf_pos;                   /* current offset in the expansion buffer */
+    int              buf_size;                  /* number of valid (expanded) bytes in the buffer */
     int              mask_off;                  /* offset of the bit to start masking with */
     int              mask_len;                  /* number of bits to mask */
     int32            offset;                    /* offset in the file in terms of bytes */
